@@ -60,6 +60,10 @@ CHECKS = {
             "Algebraic-law monitor on both value libraries and via generated programs: reflexivity/symmetry/transitivity of equality and agreement with structural equality, clone equality and independence under mutation histories checked against a shadow model, JSON round trips under the value's type, and identical Display text of the same abstract value built in both libraries.",
             "Trusts harness/valuni structEq and the shadow mutation model; the interpreter library has no Clone so copy laws are checked on the VM library.",
             "runtime monitoring: algebraic laws + shadow-model mutation histories over a value universe", "valuni", "DESIGN.md §3 C13"),
+    "C15": ("exploration",
+            "Model-linker monitor: exhaustive enumeration (bound stated in the evidence: pairs, triples, import-kind probes, all import-edge subsets over 2-4 modules, self-imports, bare modules, re-exports, mangled-name schemes) plus seeded samples of module graphs with the SAME names reused across modules and tag-returning bodies; a tiny model linker (name -> defining module through the import statements, visibility through pub) predicts the diagnostic class per import and the exact printed tags; every accepted graph is compiled and run 12-16 times with the analysed module map re-inserted in every permutation (the compiler visits modules in map order), on the VM and the interpreter; init-once is observed through per-module singleton loads.",
+            "The model linker is harness code (props/c15/model.go) written from the property text.",
+            "runtime monitoring: exhaustive small module graphs vs model linker, repeated over module visiting orders", "module-graphs", "DESIGN.md §3 C15"),
     "C16": ("exploration",
             "History monitor against a sequential model: seeded histories of 5-60 host invocations (SpawnSync, ~10% SpawnAsync+Wait+HandleTermination) of a 53-function service program on one VM, incl. calls that return from loops/try blocks, throw, hit fatal errors, spawn threads, and calls after failures; after every call the result (value and dynamic type) is compared with a sequential Go model of the service, and residue (operand stack, frames, memory pointer, handlers via the core-exit hook), the core list, the core-list lock (TryLock, so a leaked lock is detected without blocking) and goroutines inside Core.Run are checked.",
             "After a failed call any failure answer is accepted (the shared context is cancelled by design), a successful answer must equal the model; concurrent host calls are outside the statement.",
